@@ -804,7 +804,7 @@ def run(ctx):
     ctx.extra_cov["exhaustive_stratum"] = {"cases": len(ex), "grammar": exhaustive_cases.__doc__.split("—")[1].strip()[:300]}
     for i in range(0, len(ex), 200):
         run_batch(ctx, ex[i:i + 200], tools)
-    n = int(os.environ.get("VERIF_N") or ctx.n(400, 20000))
+    n = int(os.environ.get("VERIF_N") or ctx.n(300, 20000))
     if not ctx.proof_ok:
         n = max(n, 3000)
         ctx.notes.append("proof side broken: widened search")
